@@ -84,7 +84,8 @@ PROPS = {
     },
     "C08": {
         "standins": ["ops-C08"],
-        "units": [wire_community.units_rx, seam.units, wire_v3.units_rx], "level": "other", "design_ref": "7.8",
+        "units": [wire_community.units_rx, seam.units, wire_v3.units_rx, walks.units_propagate("C08", "puresnmp.exc:GenErr")],
+        "level": "other", "design_ref": "7.8",
         "technique": VC + "PDU.decode_raw error branch, ErrorResponse.construct/__init__ and the IDENTIFIER table executed for every "
                      "status and index (symbolic integers); _send forces the lazy value",
         "trusted_base": ["x690 decode contract on the TLV term algebra"],
@@ -99,7 +100,7 @@ PROPS = {
     },
     "C16": {
         "standins": ["tables"],
-        "units": [tables.units, pythonic.units_tables, walks.units_c16], "level": "other", "design_ref": "7.16",
+        "units": [tables.units, tables.units_walkcall, pythonic.units_tables, walks.units_c16], "level": "other", "design_ref": "7.16",
         "technique": VC + "util.tablify executed on a symbolic stream (OIDs, values, base length symbolic; stream length "
                      "enumerated) against the row/cell postcondition; Client.table/bulktable checked at their call sites "
                      "(stream = the walk's stream, column = arc after the entry arc); walks used by their C01/C02 contracts",
@@ -146,7 +147,7 @@ PROPS = {
     },
     "C01": {
         "standins": ["walks-getnext", "lean"],
-        "units": [walks.units_c01, x690_oid.units_for(("C01", "C02", "C03"))], "level": "other", "design_ref": "7.1",
+        "units": [walks.units_c01, tables.units_walkcall, x690_oid.units_for(("C01", "C02", "C03"))], "level": "other", "design_ref": "7.1",
         "technique": VC + "multiwalk verified with an inductive loop invariant over an uninterpreted, totally ordered OID "
                      "sort (axioms Lean-checked) against an RFC 3416 agent model; database, OIDs, iteration count unbounded; "
                      "number of roots and listing order enumerated (proved-shape-bounded)",
@@ -155,7 +156,7 @@ PROPS = {
     },
     "C02": {
         "standins": ["walks-bulk", "lean"],
-        "units": [walks.units_c02, x690_oid.units_for(("C01", "C02", "C03"))], "level": "other", "design_ref": "7.2",
+        "units": [walks.units_c02, tables.units_walkcall, x690_oid.units_for(("C01", "C02", "C03"))], "level": "other", "design_ref": "7.2",
         "technique": VC + "multiwalk with the real bulk fetcher (closure, bulkget) under the same invariant and postcondition "
                      "as the GETNEXT walk; GETBULK agent model with every RFC-allowed cut; roots, repetitions and cuts enumerated",
         "trusted_base": ["Client._send used by its contract above the seam", "RFC 3416 agent model (environment)",
@@ -163,7 +164,8 @@ PROPS = {
     },
     "C07": {
         "standins": ["ops-C07"],
-        "units": [api_ops.units, seam.units, wire_v3.units_emit], "level": "other", "design_ref": "7.7",
+        "units": [api_ops.units, seam.units, wire_v3.units_emit, walks.units_propagate("C07", "puresnmp.exc:InvalidResponseId")],
+        "level": "other", "design_ref": "7.7",
         "technique": VC + "every clock read is a fresh symbolic integer; the id placed in the PDU must equal the id "
                      "validated (caller-side obligation at the _send seam); _send itself verified against its contract",
         "trusted_base": ["mpm.encode / mpm.decode / sender are contract slots in the _send unit (any bytes, any response id)",
